@@ -161,8 +161,9 @@ func c11Same(a, b *ClusterInfo, probeVerb string) {
 	vassert((ea == nil) == (eb == nil), "C11/routing-depends-on-history")
 }
 
-func c11Converges(vary int) {
-	k := vbound(2, 3)
+func c11Converges(vary int) { c11ConvergesK(vary, vbound(2, 3)) }
+
+func c11ConvergesK(vary int, k int) {
 	live := c11Fresh()
 	var last *proxyv1alpha1.UpstreamCluster
 	for i := 0; i < k; i++ {
@@ -204,4 +205,4 @@ func HarnessC11RoutingLoggingNames() { c11Converges(c11VaryRest) }
 // HarnessC11All: all fields varying together.
 // verif:tier thorough
 // verif:bounds k = 2 versions, everything above at once
-func HarnessC11All() { c11Converges(c11VaryGates | c11VaryFlowControl | c11VaryRest) }
+func HarnessC11All() { c11ConvergesK(c11VaryGates|c11VaryFlowControl|c11VaryRest, 2) }
